@@ -62,7 +62,11 @@ func (s *c10ps) receivers() {
 	for i := range s.subs {
 		i := i
 		vGo(func() {
-			for v := range s.subs[i] {
+			for {
+				v, ok := <-s.subs[i]
+				if !ok {
+					break
+				}
 				s.logs[i] = append(s.logs[i], v)
 			}
 			s.closed[i] = true
